@@ -95,6 +95,9 @@ func NewPrivateKeyFromXML(xmlInput string, demo bool) (*PrivateKey, error) {
 	if err != nil {
 		return nil, err
 	}
+	if privk.P == nil || privk.Q == nil || privk.PPrime == nil || privk.QPrime == nil {
+		return nil, errors.New("private key misses one of its elements p, q, pPrime, qPrime")
+	}
 
 	if !demo {
 		// Do some sanity checks on the key data
@@ -276,6 +279,9 @@ func NewPublicKeyFromBytes(bts []byte) (*PublicKey, error) {
 	if err != nil {
 		return nil, err
 	}
+	if pubk.N == nil || pubk.Z == nil || pubk.S == nil {
+		return nil, errors.New("public key misses one of its elements n, Z, S")
+	}
 	keylength := pubk.N.BitLen()
 	if sysparam, ok := DefaultSystemParameters[keylength]; ok {
 		pubk.Params = sysparam
@@ -299,22 +305,13 @@ func NewPublicKeyFromFile(filename string) (*PublicKey, error) {
 		return nil, err
 	}
 	defer common.Close(f)
-	pubk := &PublicKey{}
 
 	b, err := io.ReadAll(f)
 	if err != nil {
 		return nil, err
 	}
 
-	err = xml.Unmarshal(b, pubk)
-	if err != nil {
-		return nil, err
-	}
-	pubk.Params = DefaultSystemParameters[pubk.N.BitLen()]
-	if err = pubk.parseRevocationKey(); err != nil {
-		return nil, err
-	}
-	return pubk, nil
+	return NewPublicKeyFromBytes(b)
 }
 
 func (pubk *PublicKey) parseRevocationKey() error {
